@@ -12,6 +12,7 @@ CONSTANTS
   ReqMethods = {"GET", "OPTIONS"}
   ReqHosts = {"", "one.test"}
   ReqPaths = {"/a", "/c"}
+  ReqOrigins = {""}
   GenMinCalls = 0
   Dev = {"ConfigByMatch"}
 SPECIFICATION Spec
